@@ -35,3 +35,7 @@ def run(rep):
         if rep.tier != "quick":
             runs += [["lifecycle", lib, 3, "queued=3"], ["lifecycle", lib, 1, "queued=0"], ["lifecycle", lib, 0, "queued=9"]]
     rt_common.impl_side(rep, PID, runs, lambda a, d: probe.oracle_lifecycle(d))
+
+
+def replay(rep, path):
+    return rt_common.replay_generic(rep, path)
